@@ -1482,6 +1482,13 @@ Proof.
 Qed.
 End Codecs.
 
+(* parse_address never raises, whatever the network row and the codecs *)
+Lemma parse_address_total (dec : bytes -> option bytes) (sparse : bytes -> option (bytes * N * bytes * N)) net s :
+  exists r, parse_address dec sparse net s = Ret r.
+Proof.
+  destruct (parse_address_spec dec sparse (fun x => x) net s) as [(k & p & _ & _ & _ & _ & R)|[R _]]; eauto.
+Qed.
+
 (* ============================ the generated table ============================ *)
 Lemma networks_wf : forallb (fun n => implb (nr_std n) (net_wf n)) networks = true.
 Proof. vm_compute. reflexivity. Qed.
